@@ -194,7 +194,8 @@ def find_pairs(
             + PHOSPHATE_ACCEPTORS
         )
         donors = BASE_DONORS.get(residue.one_letter_name, [])
-        for atom_name in acceptors + donors:
+        # an atom listed as acceptor and as donor (O2') is one point, not two
+        for atom_name in dict.fromkeys(acceptors + donors):
             atom = residue.find_atom(atom_name)
             if atom:
                 xyz = (atom.x, atom.y, atom.z)
